@@ -1,7 +1,7 @@
 (* Proofs about Model/Winding.v (crop_pointcloud, box corners): edge test = cross-product sign,
    uint8 counter = sum of edge contributions mod 256, inside/outside partition, and the yaw-only
    rectangle: winding-number selection = slab inequalities in the box frame (all rotations). *)
-From Coq Require Import List Bool ZArith Arith Lia Permutation Psatz.
+From Coq Require Import List Bool ZArith Arith Lia Permutation.
 From PE Require Import Base.QUtil Model.Winding.
 Import ListNotations.
 Open Scope Q_scope.
